@@ -1120,7 +1120,7 @@ def _same_piece(p, q):
 def _codepoint_fill(src, n):
     """deterministic position-coded content for an opaque source (printable, codec safe)"""
     # letters, plus the characters whose EBCDIC code differs between cp500 and cp037 (a code-page mix-up shows in the witness)
-    alphabet = 'ABCDEFGHIJKLMNOPQRSTUVWXYZabcdefghijklmnopqrstuvwxyz!^[]|'
+    alphabet = 'ABCDEFGHIJKLMNOPQRSTUVWXYZabcdefghijklmnopqrstuvwxyz!^[]|\xe9'
     k = sum(ord(c) for c in src.name) % len(alphabet)
     return ''.join(alphabet[(k + 7 * i) % len(alphabet)] for i in range(n))
 
@@ -1133,6 +1133,10 @@ def concretize_source(src, ev):
     txt = list(_codepoint_fill(src, n))
     if src.kind == 'b':
         data = bytearray(''.join(txt).encode('latin_1'))
+        # opaque binary content also carries the byte values that text-minded code trips over (line ends, NUL, 0xFF, pad and blank)
+        special = (0x0a, 0x00, 0xff, 0x0d, 0x40, 0x20, 0x85, 0x1a)
+        for i in range(6, n, 13):
+            data[i] = special[(i // 13) % len(special)]
         # numerals that the code parsed out of this source (nondeterministic int() outcomes), written back as text
         for chain, d in src.derived.items():
             if isinstance(chain, tuple) and chain and chain[0] == 'bytes-int':
